@@ -141,7 +141,7 @@ PROPS = {
         level="model_checking",
         runs=[dict(harness="c06", variant="san", shards=16, args=["level=a"], tag="lh_table"),
               dict(harness="c06", variant="san", shards=32, args=["level=b"], tag="object")],
-        deadline=dict(quick=400, thorough=2400),
+        deadline=dict(quick=400, thorough=3600),
         rule="level A: lh_table with harness hash/equality, every assignment of hashes {0,1,2,3,5} to the keys x initial size 1..4, operations insert / insert(constant key) / "
              "delete / delete_entry / resize(1,size,2*size), BFS to a fix-point merged on (slot array incl. tombstones, order list, size); level B: json_object with keys "
              "{'', a, b, 300-byte, two keys searched to collide with 'a' modulo 16 and 32} x both string hashes x 4 seeds, from the empty object and from 10 insertions "
